@@ -1133,10 +1133,16 @@ func callBuiltin(caller *frame, callpos token.Pos, fn *ssa.Builtin, args []value
 	panic("unknown built-in: " + fn.Name())
 }
 
-func rangeIter(x value, t types.Type) iter {
+func rangeIter(x value, t types.Type, desc bool) iter {
 	switch x := x.(type) {
 	case *omap:
-		return newMapIter(x)
+		it := newMapIter(x)
+		if desc {
+			for a, b := 0, len(it.keys)-1; a < b; a, b = a+1, b-1 {
+				it.keys[a], it.keys[b] = it.keys[b], it.keys[a]
+			}
+		}
+		return it
 	case string:
 		return &stringIter{s: x}
 	case symStr:
